@@ -15,8 +15,69 @@ contract(
     target='cgsmiles.resolve:compatible', serves=['C03', 'C10', 'C01'],
     types={'left': 'Str', 'right': 'Str', 'legacy': 'Bool'}, returns='Bool',
     # the kind precondition is real: without it the body answers True for ('A', 'A') (DESIGN A.1)
-    requires=["len(left) >= 1 and len(right) >= 1",
-              "left[0] in ['$', '!', '<', '>'] and right[0] in ['$', '!', '<', '>']"],
+    requires=["kind_ok(left) and kind_ok(right)"],
     ensures=["result == spec_compatible(left, right, legacy)"],
     examples=_ex_compatible,
+)
+
+
+# ------------------------------------------------------------------------------------------------
+# match_bonding_descriptors: first compatible pair in (source node, target node, source descriptor,
+# target descriptor) lexicographic order; LookupError iff there is none; pure.
+_NOPAIR = ("not spec_compatible(source_nodes[keys(source_nodes)[i]][a], "
+           "target_nodes[keys(target_nodes)[j]][b], legacy)")
+_WF = ("all(all(kind_ok(d) for d in attr({g}, n, 'bonding')) "
+       "for n in nodes({g}) if has_attr({g}, n, 'bonding'))")
+
+
+def _ex_match():
+    import networkx as nx
+    import itertools
+    import random
+    pool = [['$1'], ['$A1', '>1'], ['<1'], ['!1', '$B1'], [], ['>A1'], ['<A1', '$A1'], ['$B1', '$A1'], ['>1', '<A1']]
+    combos = list(itertools.product(pool, repeat=4))
+    random.Random(7).shuffle(combos)
+    for sa, sb, ta, tb in combos:
+        for legacy in (True, False):
+            s = nx.Graph()
+            s.add_node(0, bonding=list(sa))
+            s.add_node(1, bonding=list(sb))
+            s.add_node(2)
+            t = nx.Graph()
+            t.add_node(5, bonding=list(ta))
+            t.add_node(3, bonding=list(tb))
+            yield {'source': s, 'target': t, 'bond_attribute': 'bonding', 'legacy': legacy}
+
+
+contract(
+    target='cgsmiles.resolve:match_bonding_descriptors', serves=['C03', 'C01', 'C10'],
+    types={'source': 'Graph:mol', 'target': 'Graph:mol', 'bond_attribute': 'Str', 'legacy': 'Bool'},
+    fix={'bond_attribute': 'bonding'},
+    returns='Tuple[Tuple[Int,Int],Tuple[Str,Str]]',
+    requires=[_WF.format(g='source'), _WF.format(g='target')],
+    ensures=[
+        "has_attr(source, result[0][0], 'bonding') and member(result[1][0], attr(source, result[0][0], 'bonding'))",
+        "has_attr(target, result[0][1], 'bonding') and member(result[1][1], attr(target, result[0][1], 'bonding'))",
+        "spec_compatible(result[1][0], result[1][1], legacy)",
+    ],
+    raises={'LookupError': {'iff': True, 'when':
+            "not any(spec_compatible(a, b, legacy) "
+            "for s in nodes(source) if has_attr(source, s, 'bonding') "
+            "for t in nodes(target) if has_attr(target, t, 'bonding') "
+            "for a in attr(source, s, 'bonding') for b in attr(target, t, 'bonding'))"}},
+    modifies=[], opaque=['spec_compatible', 'kind_ok'],
+    loops={
+        0: Loop(over='source_nodes', invariant=[
+            "all(" + _NOPAIR + " for i in range(_i0) for j in range(len(target_nodes)) "
+            "for a in range(len(source_nodes[keys(source_nodes)[i]])) for b in range(len(target_nodes[keys(target_nodes)[j]])))"]),
+        1: Loop(over='target_nodes', invariant=[
+            "all(" + _NOPAIR.replace('[i]', '[_i0]') + " for j in range(_i1) "
+            "for a in range(len(source_nodes[keys(source_nodes)[_i0]])) for b in range(len(target_nodes[keys(target_nodes)[j]])))"]),
+        2: Loop(over='bond_sources', invariant=[
+            "all(" + _NOPAIR.replace('[i]', '[_i0]').replace('[j]', '[_i1]') + " for a in range(_i2) "
+            "for b in range(len(target_nodes[keys(target_nodes)[_i1]])))"]),
+        3: Loop(over='bond_targets', invariant=[
+            "all(" + _NOPAIR.replace('[i]', '[_i0]').replace('[j]', '[_i1]').replace('[a]', '[_i2]') + " for b in range(_i3))"]),
+    },
+    examples=_ex_match,
 )
